@@ -5,12 +5,14 @@ EXTENDS GenMn
 O1 == NOneHot
 O2 == O1 + NRandFeed
 O3 == O2 + NGenLens
-Count == O3 + NReal
+O4 == O3 + NReal
+Count == O4 + NErrno
 ItemAt(g) ==
   IF g <= O1 THEN OneHotAt(g)
   ELSE IF g <= O2 THEN RandFeedAt(g - O1)
   ELSE IF g <= O3 THEN GenLenAt(g - O2)
-  ELSE RealAt(g - O3)
+  ELSE IF g <= O4 THEN RealAt(g - O3)
+  ELSE ErrnoAt(g - O4)
 VARIABLE n
 INSTANCE GenBase
 =============================================================================
